@@ -734,7 +734,14 @@ func (w *world) arg(t reflect.Type, r *rand.Rand) (reflect.Value, bool) {
 		usePool = r.Intn(100) < 85
 	}
 	if len(cands) > 0 && usePool {
-		return w.pool[cands[r.Intn(len(cands))]].v, true
+		pv := w.pool[cands[r.Intn(len(cands))]].v
+		if pv.Kind() == reflect.Slice && !pv.IsNil() && pv.Cap() > pv.Len() {
+			// an earlier result handed on as an argument shares its elements with that result but not its spare
+			// capacity: how much room an encoder left behind its output is allocation detail (make+append versus a
+			// composite literal), and a callee reslicing past len would otherwise turn it into a behavioural difference
+			pv = pv.Slice3(0, pv.Len(), pv.Len())
+		}
+		return pv, true
 	}
 	if t.Kind() == reflect.Struct {
 		// a value receiver: copy of a pooled *T
